@@ -1,3 +1,6 @@
+#[cfg(kanal_verif)]
+#[allow(unused_imports)]
+use crate::verif::{core, std};
 use crate::{
     internal::{acquire_internal, Internal},
     pointer::KanalPtr,
